@@ -31,6 +31,11 @@ var c15Templates = []string{
 	`/m/{x}/m/{y:\d+}`,
 	"/{all}",
 	"/num/{num}",
+	// a route that begins with a variable (values may equal the literal first segment of another dynamic route)
+	"/{user}/repos",
+	// custom regexes on variables that carry the name of a global variable
+	`/ar/{num:\d+}`,
+	`/tg/{all:[a-z]+}/feed`,
 }
 
 var c15Values = []string{"7", "20", "ab", "a b", "é", "100%", "a?b", "a#b", "a;b", "a%2Fb", ".", "..", "a/b", "x.json", "0", "a+b", "a&b=c", " ", "%41"}
@@ -206,6 +211,9 @@ func c15Run(c c15Case, st *fw.Stats) []fw.Viol {
 	shared := rux.NewBuildRequestURL()
 	// decoys that must not capture the built URL
 	r.GET("/zz/{x}", func(ctx *rux.Context) { seenIdx = 1 })
+	// ... whose first segment is one of the values, but which matches no built URL
+	r.GET(`/ab/{x:\d+}/edit`, func(ctx *rux.Context) { seenIdx = 3 })
+	r.GET(`/7/{x:\d+}/edit`, func(ctx *rux.Context) { seenIdx = 3 })
 	target := r.GetRoute("target")
 	vals := make([]string, len(defs))
 	var rec func(i int)
@@ -337,7 +345,7 @@ func c15Run(c c15Case, st *fw.Stats) []fw.Viol {
 var c15Spec = fw.Spec[c15Case]{
 	ID:    "C15",
 	Level: "model_checking",
-	Rule: "complete product: 14 named templates (static, default / custom / global variable regexes, 1-3 variables, literal prefix and suffix around a variable, '.' in the literal text) x ALL value tuples over 19 values (spaces, non-ASCII, %, ?, #, ;, encoded slash, dots, slash where the regex admits it) that satisfy the variables' regexes x 4 argument styles (M map, key/value pairs, BuildRequestURL builder, one builder object reused across routes) x 3 registrations (top-level AddNamed; NewNamedRoute + ToURL() + AddRoute inside a group; named after registration with NamedTo) x 4 sets of extra query arguments; " +
+	Rule: "complete product: 17 named templates (static, leading variable next to dynamic decoys whose literal first segment is one of the values, default / custom / global variable regexes, 1-3 variables, literal prefix and suffix around a variable, '.' in the literal text) x ALL value tuples over 19 values (spaces, non-ASCII, %, ?, #, ;, encoded slash, dots, slash where the regex admits it) that satisfy the variables' regexes x 4 argument styles (M map, key/value pairs, BuildRequestURL builder, one builder object reused across routes) x 3 registrations (top-level AddNamed; NewNamedRoute + ToURL() + AddRoute inside a group; named after registration with NamedTo) x 4 sets of extra query arguments; " +
 		"each built URL is matched (Match on u.Path) and requested (ServeHTTP on a request parsed from u.String()); naming: all sequences of <=3 (thorough 4) naming operations over 2 names x {AddNamed, NewNamedRoute+AddRoute, route.NamedTo on a new route, NamedTo renaming the first / the previous route}; non-trivial = a template with variables / a sequence of >=2 naming operations",
 	Assume: []string{"values containing '{' or '}' are excluded: Build substitutes in Go map order, which the harness cannot own", "routes without optional parts, as the statement says", "value tuples that spell a path which is not in normal form (white space or '/' at the very end) are skipped: path normalisation (C11) ignores those characters by design"},
 	Bounds: func(tier string) map[string]any {
